@@ -1,7 +1,7 @@
 """C19 - the C mocking interface behaves exactly like the C++ one: every scenario is run through mock() and through
 mock_c(), each as the body of a fixture test; both logs must be behaviours of Mock.tla and equal on the projection
 (verdict, failure text, returned value with its type tag, default used or not, output bytes)."""
-import json, os, re, shutil
+import json, os, random, re, shutil
 from vlib.conform import conform, read_log
 from vlib.core import Infra
 import mockgen as G
@@ -17,8 +17,10 @@ MC_DBL = dict(fns='"f"', pnames='"p"', vals="ValsDbl", ns="1", maxexp=1, maxcall
 # the comparator domain (equality of the whole object / of the first field, never, always, expected-below-actual) x the object pairs (the
 # very same object, the same content in another object, another content): one scope, one expectation, one call
 MC_IDENT = dict(fns='"f"', pnames='"p"', vals="ValsObjIdQ", ns="1", maxexp=1, maxcalls=1, maxinst=1, flags="FALSE")
+# the test around the scenario: a check of the test itself fails at any point (the first failure; nothing is reported afterwards)
+MC_PHASES = dict(fns='"f"', pnames="", ns="1", maxexp=1, maxcalls=2, phases="TRUE")
 MC_QUICK = [("typed", dict(fns='"f"', pnames="", rets="RetsTyped", getters="GetTyped", maxexp=1, ns="1, 2", maxcalls=2)),
-            ("comparators", MC_CMP), ("identity", MC_IDENT), ("copiers", MC_CPY), ("doubles", MC_DBL)]
+            ("comparators", MC_CMP), ("identity", MC_IDENT), ("copiers", MC_CPY), ("doubles", MC_DBL), ("phases", MC_PHASES)]
 MC_THOROUGH = [("typed", dict(fns='"f", "g"', pnames='"p"', rets="RetsTyped", getters="GetTyped", maxexp=1, ns="1, 2", maxcalls=3)),
                ("typed2", dict(fns='"f"', pnames="", rets="RetsTyped", getters="GetTyped", maxexp=2, ns="1", maxcalls=3)),
                ("core", dict(maxcalls=3)),
@@ -27,7 +29,8 @@ MC_THOROUGH = [("typed", dict(fns='"f", "g"', pnames='"p"', rets="RetsTyped", ge
                ("comparators", dict(MC_CMP, vals="ValsObj1", maxinst=2, maxcalls=2, cmpx="CmpPlain")),
                ("comparators3", dict(MC_CMP, scopes="ScopesGST", cmpx="CmpPlain")), ("comparators5", MC_CMP),
                ("identity", dict(MC_IDENT, vals="ValsObjId", maxcalls=2)),
-               ("copiers", dict(MC_CPY, maxinst=2, maxcalls=2)), ("doubles", dict(MC_DBL, ns="1, 2", maxcalls=2))]
+               ("copiers", dict(MC_CPY, maxinst=2, maxcalls=2)), ("doubles", dict(MC_DBL, ns="1, 2", maxcalls=2)),
+               ("phases", dict(MC_PHASES, fns='"f", "g"', maxexp=2, maxcalls=3))]
 GEN = [("bfs", 5, None, None, dict(fns='"f"', ns="1", maxexp=1, maxcalls=2, rets="RetsTyped", getters="GetTyped")),
        # double parameters: every tolerance class x every distance class, exhaustively for one expectation and one call
        ("bfsdbl", 5, None, None, dict(fns='"f"', pnames='"p"', vals="ValsDbl", ns="1", maxexp=1, maxcalls=1, rets="Rets1", flags="FALSE")),
@@ -46,6 +49,13 @@ GEN = [("bfs", 5, None, None, dict(fns='"f"', ns="1", maxexp=1, maxcalls=2, rets
                                     ns="1", maxcalls=3, maxinst=2, late="TRUE")),
        # the data store: values of several kinds and objects of user types whose names begin like a built-in type name
        ("simdata", 10, 8, 250, dict(scopes="ScopesGS", fns='"f"', pnames="", rets="Rets1", maxexp=1, ns="1", maxcalls=1, dkeys="Keys2", dvals="DVals1"))]
+GEN_PHASES = [
+       # the test around the scenario: a body in which a check of the test itself may fail, and a teardown of two calls (checkExpectations,
+       # expectedCallsLeft, an actual call, clear) - exhaustively for two functions, two expectations and a body of four calls; sampled with
+       # scopes, parameters and typed return values.  Whatever the teardown asks of the mock in a test that has failed adds nothing
+       ("bfsphase", 4, None, None, dict(fns='"f", "g"', pnames="", ns="1", maxexp=2, maxcalls=2, rets="Rets1", flags="FALSE", phases="TRUE")),
+       ("simphase", 12, 8, 150, dict(scopes="ScopesGS", fns='"f"', pnames='"p"', rets="RetsTyped", getters="GetTyped", maxexp=2, ns="1, 2",
+                                      maxcalls=4, phases="TRUE"))]
 
 LATTICE = [0, 1, 2, -1, -2, 2 ** 31 - 1, 2 ** 31, 2 ** 31 + 1, -2 ** 31, -2 ** 31 - 1, 2 ** 32 - 1, 2 ** 32, 2 ** 32 + 1, 2 ** 63 - 1, 2 ** 63,
            2 ** 64 - 1, -2 ** 63, -2 ** 63 + 1]
@@ -366,7 +376,7 @@ HEX = re.compile(r"0x[0-9a-fA-F]+")
 
 def projection(e):
     """what the property compares between the two interfaces, per log line"""
-    p = {k: e.get(k) for k in ("op", "r", "has", "outs", "left", "vcount") if k in e}
+    p = {k: e.get(k) for k in ("op", "r", "has", "outs", "left", "vcount", "reps") if k in e}
     if "val" in e and (e.get("has", True) or e.get("g", "value") != "value"):
         v = dict(e["val"])
         v.pop("tn", None)       # the C tagged union has no type name for objects
@@ -375,6 +385,8 @@ def projection(e):
         p["val"] = v
     if "text" in e:
         p["text"] = HEX.sub("0xPTR", e["text"])
+    if "texts" in e:            # the end of the test: the messages of all the failures the test recorded, in order
+        p["texts"] = [HEX.sub("0xPTR", t) for t in e["texts"]]
     return p
 
 
@@ -452,7 +464,13 @@ def object_pair_class(ex, i):
 
 
 def detail(ex, i):
-    """what distinguishes the failing call within its operation (part of the divergence key)"""
+    """what distinguishes the failing call within its operation (part of the divergence key): its arguments' class, and where in
+    the test it stands (in a test whose own check has failed / in the teardown)"""
+    before = [x[0] for x in ex[:i]]
+    return detail_of_call(ex, i) + (":test-already-failed" if "failcheck" in before else "") + (":in-teardown" if "teardown" in before else "")
+
+
+def detail_of_call(ex, i):
     if i >= len(ex):
         return ""
     l = ex[i]
@@ -600,6 +618,31 @@ def run(ctx):
     main = [default_form(e, ctx.rng) for e in main]
     ctx.notes["executions"] = {"tlc_generated": len(main), "per_type_sweep": len(sw), "random": len(rnd)}
     both("main", main + sw + rnd, {"leg": "main"})
+    # ---- the test around the scenario (a random stream of its own: the scenarios above and the family samples below stay what they are).
+    # TLC-generated tests with a body and a teardown; and scenarios of every source above once more as such a test: the body ends at a
+    # random point, two times out of three a check of the test itself fails somewhere in it, so that the teardown - the rest of the
+    # scenario: further calls, checkExpectations, clear - runs in a test that has already failed
+    prng = random.Random(ctx.seed * 7919 + 19)
+    genph = []
+    for lab, D, nq, nt, kw in GEN_PHASES:
+        n = nq if quick else nt
+        g = ctx.tlc("Gen_Mock", ctx.write_cfg("Gen_Mock_" + lab, G.gen_cfg(D, **kw)), workers=8, simulate=n, depth=(D + 8) if n else None, timeout=1500, heap="8g")
+        execs = sorted({tuple(tuple(map(str, l)) for l in G.beh_to_exec(h)) for h in g.beh})
+        execs = [[list(l) for l in e] for e in execs if contiguous_calls(e)]
+        if not execs:
+            raise Infra("no behaviours generated by " + lab)
+        execs = [e2 for e2, fam in (G.assign_via(e, prng, True) for e in execs) if not fam]
+        ctx.notes.setdefault("generated_phases", {})[lab] = len(execs)
+        if quick and len(execs) > 300:
+            execs = prng.sample(execs, 300)
+        ctx.sample({"source": "TLC " + lab, "execution": ["\t".join(l) for l in execs[prng.randrange(len(execs))]][:14]})
+        genph += execs
+    pool = main + sw + rnd
+    phased = [x for x in (G.with_phases(e, prng) for e in prng.sample(pool, min(len(pool), 300 if quick else 2000))) if x]
+    ctx.sample({"source": "scenario as body + failing check + teardown", "execution": ["\t".join(map(str, l)) for l in phased[0]][:14]})
+    ctx.notes["executions"]["tests_with_body_and_teardown"] = {"tlc_generated": len(genph), "derived": len(phased)}
+    phased = genph + phased
+    both("phases", phased, {"leg": "phases"})
     # ---- the two scenario families in which the C layer's single static "current call" shows (each keyed by its family)
     fam1 = ignored_family(ctx.rng)
     if quick:
@@ -613,7 +656,7 @@ def run(ctx):
     fam4 = removeall_child_family(G.user_type_names()) + child_removal[: (4 if quick else 400)]
     both("removeall-in-child-scope", fam4, {"leg": "removeall-in-child-scope"}, family="removeall-in-child-scope")
     allx = main
-    for e in allx + sw + rnd:
+    for e in allx + sw + rnd + phased:
         ops = [l[0] for l in e]
         if "begin" in ops or "getdata" in ops:
             distinct.add(json.dumps(e))
@@ -633,7 +676,9 @@ def run(ctx):
              "data store, every user-type name of mockgen.user_type_names() as parameter / output / data object, every ordered pair of scopes x pair of "
              "functions for one type name, every comparison function x the same object / an equal object / a different object in the global and "
              "in a child scope) + seeded random scenarios expressible in both interfaces (user types installed per scope by "
-             "mockgen.install_plan); each is executed twice, through mock() and through mock_c(), as the body of a fixture test; "
+             "mockgen.install_plan) + scenarios of all these sources as a test with a body, in which a check of the test itself may fail, and a "
+             "teardown that goes on asking the mock (TLC: exhaustive for a body of four calls and a teardown of two; mockgen.with_phases); the "
+             "failures a test recorded - count, categories and messages, in order - are compared at its end; each is executed twice, through mock() and through mock_c(), as the body of a fixture test; "
              "distinct = distinct scripts with at least one actual call or data read",
         distinct_nontrivial=len(distinct), exhaustive=False,
         assumptions=["doubles: finite values are multiples of 2^-10 (the default tolerance 0.005 = 5 units); an expectation's tolerance may be zero, "
@@ -642,6 +687,8 @@ def run(ctx):
                      "scenarios expressible in both interfaces: no onObject (absent from the C interface), the sub-calls of one actual call are contiguous, "
                      "a return value is read only after an actual call of the same test (the three families that leave this frame are run and keyed separately)",
                      "failure texts are compared after replacing hexadecimal addresses",
+                     "the failing check of the test itself is a LONGS_EQUAL in the body; a test's later mock calls are in its teardown (the body of a failed "
+                     "test is left); steps that ran in a test that had already failed are compared only as to what they added to the test's failures (nothing)",
                      "an object read back through the C tagged union carries no type name; only its content is compared",
                      "user types: objects are records of two ints, the comparison functions are 'all fields' / 'first field only' / 'never' / 'always' / "
                      "'expected first field below the actual one' (a comparator need not be reflexive or symmetric; it alone decides, also when expected and "
